@@ -2148,10 +2148,16 @@ class Symex:
                     k = kw["key"]
                     kw = dict(kw)
                     kw["key"] = lambda v, k=k: self.call_value(k, [v], {}, node)
+                snapshot = list(o)
                 try:
                     o.sort(**kw)
                 except TypeError:
-                    self.unsupported(node, "sort of symbolic values")
+                    # keys the analysis cannot order: the list becomes the (uninterpreted) sorted sequence, exactly
+                    # what ``sorted(list, key=..)`` evaluates to
+                    o[:] = snapshot
+                    st = self.ext_call("sorted", [snapshot], {k_: v_ for k_, v_ in kw.items() if k_ != "key"} |
+                                       ({"key": k} if "key" in kw else {}), node)
+                    o[:] = st if isinstance(st, list) else [T("elem", st, i) for i in range(len(snapshot))]
                 return None
             if attr in ("insert", "clear", "pop", "reverse", "copy", "remove"):
                 try:
